@@ -392,6 +392,21 @@ def check_guarded_lookup(repo: Repo, rep: Report, rule: str = "guarded-lookup") 
                 if tt.replace(" ", "") in (f"{key}in{norm(x.value)}".replace(" ", ""),) and any(x is y for s_ in g.body for y in ast.walk(s_)):
                     ok, how = True, f"under `if {tt}`"
                 g = enclosing(g, (ast.If,))
+            if not ok:
+                # a guard clause before it: `if key not in table: ... return` earlier in a block that contains the lookup
+                fn_ = enclosing(x, (ast.FunctionDef,))
+                want_t = f"{key}notin{norm(x.value)}".replace(" ", "")
+                for blk_owner in ast.walk(fn_) if fn_ is not None else []:
+                    for fld_ in ("body", "orelse", "finalbody"):
+                        b_ = getattr(blk_owner, fld_, None)
+                        if not isinstance(b_, list):
+                            continue
+                        idx_ = next((i_ for i_, s_ in enumerate(b_) if any(x is y for y in ast.walk(s_))), None)
+                        if idx_ is None:
+                            continue
+                        for s_ in b_[:idx_]:
+                            if isinstance(s_, ast.If) and norm(s_.test).replace(" ", "") == want_t and s_.body and isinstance(s_.body[-1], (ast.Return, ast.Raise, ast.Continue, ast.Break)):
+                                ok, how = True, f"after the guard `if {norm(s_.test)}: ... {type(s_.body[-1]).__name__.lower()}`"
             if not ok and (short, q) in LOOKUP_ALLOWED:
                 ok, how = True, LOOKUP_ALLOWED[(short, q)]
             if ok:
